@@ -594,7 +594,7 @@ REPLAY = {"calibrate": check_calibrate, "select": check_select, "enum_bool": che
           "sequence": check_select_sequence}
 KNOWN = {}
 FLOORS = {"sequence: a later context, then an earlier one": ("", 0.0003),
-          "select nontrivial": ("part select / sequence", 0.1), "enum/bool nontrivial": ("part enum_bool", 0.3),
+          "select nontrivial": ("part select / sequence", 0.1), "enum/bool nontrivial": ("part enum_bool", 0.15),
           "enum: raw value that no double represents": ("part enum_bool", 0.005)}
 
 
